@@ -547,6 +547,13 @@ func runP(c PCase, rec *h.Rec) {
 		return
 	}
 	ba := bam.VerifBinFor(c.A.Beg, c.A.End)
+	// a bin list belongs to the caller: enumerate B's, then A's, then look at B's
+	listB := bam.VerifOverlappingBinsFor(c.B.Beg, c.B.End)
+	_ = bam.VerifOverlappingBinsFor(c.A.Beg, c.A.End)
+	if !contains(listB, ba) {
+		rec.Failf("intervals [%d,%d) and [%d,%d) overlap but bin %d of the first is not in the bin list of the second once another list has been enumerated: %v", c.A.Beg, c.A.End, c.B.Beg, c.B.End, ba, listB)
+		return
+	}
 	if !contains(bam.VerifOverlappingBinsFor(c.B.Beg, c.B.End), ba) {
 		rec.Failf("intervals [%d,%d) and [%d,%d) overlap but bin %d of the first is not in the bin list of the second", c.A.Beg, c.A.End, c.B.Beg, c.B.End, ba)
 		return
